@@ -511,8 +511,12 @@ pub fn run(key: &str, a: &[String], out: &mut Out) {
             });
             for run in from_threads { for (i, x) in run.into_iter().enumerate() { seen[i].insert(x); } }
             let det = seen.iter().map(|x| x.iter().cloned().collect::<Vec<_>>().join("#")).collect::<Vec<_>>().join(";");
-            let other = (0..4).map(|op| (1..=r as u64).map(|d| one(&bdd, &vars, n, op, Some(seed.wrapping_add(d.wrapping_mul(0x9E3779B97F4A7C15))), &coins)).collect::<Vec<_>>().join("#"))
-                .collect::<Vec<_>>().join(";");
+            // other seeds (other paths through the diagram): each evaluated twice, identically seeded; `x!=y` if the two differ
+            let other = (0..4).map(|op| (1..=r as u64).map(|d| {
+                let sd = seed.wrapping_add(d.wrapping_mul(0x9E3779B97F4A7C15));
+                let (x, y) = (one(&bdd, &vars, n, op, Some(sd), &coins), one(&bdd, &vars, n, op, Some(sd), &coins));
+                if x == y { x } else { format!("{}!={}", x, y) }
+            }).collect::<Vec<_>>().join("#")).collect::<Vec<_>>().join(";");
             out.case(key, a, &[det, other]);
         }
         _ => panic!("unknown key {}", key),
